@@ -164,7 +164,7 @@ def judge(c, pre, post, pre2, post2, ctx, case, trig=False):
         ctx.count("trigger_after_indicator")
     node, why = find_expected(root, c["types"], c["value"], off, off + len(c["ind"]))
     desc = f"{c['kind']} {c['ind'][:80]!r} at offset {off} between {pre[-12:]!r} and {post[:12]!r}"
-    if node is None and mon_layers.swallowed_by(root, off, off + len(c["ind"])) is not None:
+    if node is None and mon_layers.swallowed_by(root, off, off + len(c["ind"]), same=tuple(c["types"])) is not None:
         # indicator + neighbouring text form another documented decoding (e.g. bare base64 across a line break)
         ctx.count("discarded:indicator-plus-neighbour-text-is-another-decoding")
         return
@@ -182,7 +182,7 @@ def judge(c, pre, post, pre2, post2, ctx, case, trig=False):
         return
     ctx.count("metamorphic_pairs")
     node2, why2 = find_expected(root2, c["types"], c["value"], len(pre2), len(pre2) + len(c["ind"]))
-    if node2 is None and mon_layers.swallowed_by(root2, len(pre2), len(pre2) + len(c["ind"])) is not None:
+    if node2 is None and mon_layers.swallowed_by(root2, len(pre2), len(pre2) + len(c["ind"]), same=tuple(c["types"])) is not None:
         ctx.count("discarded:indicator-plus-neighbour-text-is-another-decoding")
     elif node2 is None:
         ctx.violation(f"ioc:{c['kind']}:position-dependent", f"{desc}: found here but not at offset {len(pre2)} between {pre2[-12:]!r} and "
